@@ -1,5 +1,4 @@
--- imports ParamNeverWrong_proof.lean (Probe.C06All)
-import Probe.C06All
+import ParamNeverWrong_proof
 /-! C06 `core_delivered`, path location: a value in the core domain (non-empty texts without the active delimiter)
     always makes the trip and arrives unchanged. -/
 namespace Codec
